@@ -291,6 +291,196 @@ def _r04g(rep):
 
 
 
+def _r04j(rep):
+    """Index-domain typing of the supercell <-> unit-cell maps stored by Supercell._create_supercell."""
+    rep.rule("R04j", "index-domain typing of the stored maps (U unit-cell atoms, R atoms of the untrimmed surrounding cell, S supercell atoms, S0 first image of a unit-cell atom in the supercell): the surrounding cell repeats every per-atom attribute k times with one k, its atom map is repeat(arange(len(unit cell)), k): R->U; trimming returns S->R; A[B] composes X->Y with Z->X; an index is turned into its block number only by the block length of its own domain; s2u_map is S->S0, u2s_map U->S0, u2u_map S0->U", 4)
+    simple = core.find_def(CELLS, "Supercell._get_simple_supercell")
+    create = core.find_def(CELLS, "Supercell._create_supercell")
+    upar = create.args.args[1].arg  # the unit cell
+    spar = simple.args.args[1].arg
+
+    def assigned(fn):
+        out = {}
+        for st in ast.walk(fn):
+            if isinstance(st, ast.Assign) and len(st.targets) == 1 and isinstance(st.targets[0], ast.Name):
+                out.setdefault(st.targets[0].id, []).append(st.value)
+        return out
+
+    sa = assigned(simple)
+
+    def repeat_counts(e, seen=()):
+        """source texts of the k of every 'repeat each element k times' construct that e is built from"""
+        out = set()
+        if isinstance(e, ast.Name) and e.id in sa and e.id not in seen:
+            for v in sa[e.id]:
+                out |= repeat_counts(v, seen + (e.id,))
+            return out
+        for x in ast.walk(e):
+            if isinstance(x, ast.Call) and core.src(x.func) == "np.repeat" and len(x.args) >= 2:
+                out.add(core.src(x.args[1]))
+            if isinstance(x, ast.ListComp) and len(x.generators) == 2 and isinstance(x.generators[1].iter, ast.Call) and core.src(x.generators[1].iter.func) == "range" and len(x.generators[1].iter.args) == 1 and core.src(x.elt) == core.src(x.generators[0].target):
+                out.add(core.src(x.generators[1].iter.args[0]))
+            if isinstance(x, ast.Name) and x is not e and x.id in sa and x.id not in seen:
+                for v in sa[x.id]:
+                    out |= repeat_counts(v, seen + (x.id,))
+        return out
+
+    ctor = [c for c in ast.walk(simple) if isinstance(c, ast.Call) and core.src(c.func) == "PhonopyAtoms"]
+    if len(ctor) != 1:
+        raise AnalysisError("R04j: _get_simple_supercell no longer builds one PhonopyAtoms")
+    per_atom = {k.arg: repeat_counts(k.value) for k in ctor[0].keywords if k.arg in ("symbols", "masses", "magnetic_moments", "scaled_positions", "numbers")}
+    ks = set().union(*per_atom.values()) if per_atom else set()
+    one_k = len(ks) == 1 and all(v for v in per_atom.values())
+    rep.instance("R04j", CELLS, "Supercell._get_simple_supercell", f"every per-atom attribute of the surrounding cell repeats each unit-cell entry k times: {{{', '.join(f'{a}: {sorted(v)}' for a, v in sorted(per_atom.items()))}}}", one_k,
+                 f"the per-atom attributes of the surrounding cell are repeated with different counts {sorted(ks)} (or not by 'repeat each'): symbols, masses, moments and positions of an atom no longer belong to the same unit-cell atom", line=simple.lineno)
+    K = sorted(ks)[0] if ks else None
+
+    def is_len_of_unitcell(e, fn_assigned, par, depth=0):
+        while isinstance(e, ast.Name) and e.id in fn_assigned and len(fn_assigned[e.id]) == 1 and depth < 6:
+            e = fn_assigned[e.id][0]
+            depth += 1
+        if isinstance(e, ast.Call) and core.src(e.func) == "len" and e.args:
+            x = e.args[0]
+            while isinstance(x, ast.Name) and x.id in fn_assigned and len(fn_assigned[x.id]) == 1 and depth < 12:
+                x = fn_assigned[x.id][0]
+                depth += 1
+            root = x
+            while isinstance(root, ast.Attribute):
+                root = root.value
+            return isinstance(root, ast.Name) and root.id == par
+        return False
+
+    def type_simple_map(e):
+        e = core.resolve_name(simple, e)
+        if isinstance(e, ast.Call) and core.src(e.func) == "np.repeat" and len(e.args) >= 2 and core.src(e.args[1]) == K:
+            a0 = core.resolve_name(simple, e.args[0])
+            if isinstance(a0, ast.Call) and core.src(a0.func) == "np.arange" and len(a0.args) == 1 and is_len_of_unitcell(a0.args[0], sa, spar):
+                return ("map", "R", "U")
+        return None
+
+    rets = [r.value for r in ast.walk(simple) if isinstance(r, ast.Return) and r.value is not None]
+    if len(rets) != 1:
+        raise AnalysisError("R04j: _get_simple_supercell has not exactly one return")
+    r0 = core.resolve_name(simple, rets[0])
+    simple_types = [("cell", "R")] + [type_simple_map(x) for x in r0.elts[1:]] if isinstance(r0, ast.Tuple) else [("cell", "R")]
+
+    # _trim_cell returns (trimmed cell, indices of the kept atoms in the input cell, table)
+    trim = core.find_def(CELLS, "_trim_cell")
+    tr = [r.value for r in ast.walk(trim) if isinstance(r, ast.Return) and isinstance(r.value, ast.Tuple)]
+    ok_trim = len(tr) == 1 and len(tr[0].elts) == 3 and core.src(tr[0].elts[1]).endswith(".extracted_atoms")
+    appended = []
+    for fn_ in ast.walk(core.find_def(CELLS, "TrimmedCell")):
+        if isinstance(fn_, ast.FunctionDef):
+            for c in ast.walk(fn_):
+                if isinstance(c, ast.Call) and isinstance(c.func, ast.Attribute) and c.func.attr == "append" and core.src(c.func.value) == "extracted_atoms" and c.args:
+                    idx_ok = any(isinstance(lp, ast.For) and isinstance(lp.iter, ast.Call) and core.src(lp.iter.func) == "enumerate" and isinstance(lp.target, ast.Tuple) and core.src(lp.target.elts[0]) == core.src(c.args[0]) and any(y is c for y in ast.walk(lp)) for lp in ast.walk(fn_))
+                    appended.append(idx_ok)
+    if not ok_trim or not appended or not all(appended):
+        raise AnalysisError("R04j: _trim_cell / TrimmedCell no longer return the indices of the kept atoms in the input cell (extracted_atoms.append(index of the enumerate loop))")
+
+    env = {upar: ("cell", "U")}
+
+    def ty(e):
+        t_ = ty0(e)
+        if t_ is None:
+            for ch in ast.iter_child_nodes(e):  # an ill-typed part makes the whole ill-typed
+                if isinstance(ch, ast.expr):
+                    c_ = ty(ch)
+                    if c_ and c_[0] == "ill":
+                        return c_
+            if isinstance(e, ast.DictComp):
+                c_ = ty(e.generators[0].iter)
+                if c_ and c_[0] == "ill":
+                    return c_
+        return t_
+
+    def ty0(e):
+        if isinstance(e, ast.Name):
+            return env.get(e.id)
+        if isinstance(e, ast.Attribute):
+            return env.get(core.src(e))
+        if isinstance(e, ast.Call):
+            f = core.src(e.func)
+            if f == "len" and e.args:
+                t = ty(e.args[0])
+                return ("count", t[1]) if t and t[0] == "cell" else None
+            if f in ("np.array", "np.asarray", "np.ascontiguousarray", "int", "list") and e.args:
+                return ty(e.args[0])
+            if f == "np.arange" and len(e.args) == 1:
+                t = ty(e.args[0])
+                return ("map", t[1], t[1]) if t and t[0] == "count" else None
+            return None
+        if isinstance(e, ast.BinOp):
+            a, b = ty(e.left), ty(e.right)
+            if isinstance(e.op, ast.FloorDiv):
+                if a and b and a[0] == "count" and b == ("count", "U"):
+                    return ("block", a[1])
+                if a and b and a[0] == "count" and b[0] == "count":
+                    return ("ill", f"'{core.src(e)}' divides the number of {a[1]} atoms by the number of {b[1]} atoms: not a block length")
+                if a and a[0] == "map" and b and b[0] == "block":
+                    if a[2] == b[1]:
+                        return ("map", a[1], "U")
+                    return ("ill", f"an index of domain {a[2]} is divided by the block length of domain {b[1]} ('{core.src(e)}'): the blocks of {a[2]} have another length")
+                return None
+            if isinstance(e.op, ast.Mult):
+                for x, y in ((a, b), (b, a)):
+                    if x and x[0] == "ill":
+                        return x
+                    if y and y[0] == "ill":
+                        return y
+                    if x and x[0] == "map" and x[2] == "U" and y == ("block", "S"):
+                        return ("map", x[1], "S0")
+                return None
+            return None
+        if isinstance(e, ast.Subscript):
+            a, b = ty(e.value), ty(e.slice)
+            if a and b and a[0] == "map" and b[0] == "map":
+                if b[2] == a[1]:
+                    return ("map", b[1], a[2])
+                return ("ill", f"a {a[1]}->{a[2]} map is indexed by the values of a {b[1]}->{b[2]} map ('{core.src(e)}')")
+            return None
+        if isinstance(e, ast.DictComp) and len(e.generators) == 1:
+            g = e.generators[0]
+            if isinstance(g.iter, ast.Call) and core.src(g.iter.func) == "enumerate" and g.iter.args and isinstance(g.target, ast.Tuple) and len(g.target.elts) == 2:
+                m = ty(g.iter.args[0])
+                if m and m[0] == "map" and core.src(e.key) == core.src(g.target.elts[1]) and core.src(e.value) == core.src(g.target.elts[0]):
+                    return ("map", m[2], m[1])
+            return None
+        return None
+
+    stored = {}
+    # statements in source order (the typing is flow-insensitive inside the function but needs definitions first)
+    for st in sorted([x for x in ast.walk(create) if isinstance(x, ast.Assign) and len(x.targets) == 1], key=lambda x: x.lineno):
+        t, v = st.targets[0], st.value
+        if isinstance(v, ast.Call) and core.src(v.func) == "self._get_simple_supercell":
+            names = t.elts if isinstance(t, ast.Tuple) else [t]
+            for nm, tt in zip(names, simple_types):
+                env[core.src(nm)] = tt
+            continue
+        if isinstance(v, ast.Call) and core.src(v.func) == "_trim_cell" and isinstance(t, ast.Tuple) and len(t.elts) == 3 and len(v.args) >= 2:
+            src_cell = ty(v.args[1])
+            env[core.src(t.elts[0])] = ("cell", "S")
+            env[core.src(t.elts[1])] = ("map", "S", src_cell[1]) if src_cell and src_cell[0] == "cell" else None
+            continue
+        if isinstance(t, (ast.Name, ast.Attribute)):
+            tt = ty(v)
+            if isinstance(t, ast.Attribute) and core.src(t) in ("self._s2u_map", "self._u2s_map", "self._u2u_map"):
+                stored[core.src(t)] = (st, tt)
+                env[core.src(t)] = tt
+            elif core.src(t) not in env or tt is not None:
+                env[core.src(t)] = tt
+    want = {"self._s2u_map": ("map", "S", "S0"), "self._u2s_map": ("map", "U", "S0"), "self._u2u_map": ("map", "S0", "U")}
+    for nm, w in want.items():
+        if nm not in stored:
+            raise AnalysisError(f"R04j: _create_supercell no longer stores {nm}")
+        st, tt = stored[nm]
+        if tt is None:
+            raise AnalysisError(f"R04j: cannot type '{core.norm(core.src(st), 90)}' (unit cell U, surrounding cell R, supercell S)")
+        shown = f"{tt[1]}->{tt[2]}" if tt[0] == "map" else tt[1]
+        rep.instance("R04j", CELLS, "Supercell._create_supercell", f"{core.norm(core.src(st), 90)} : {w[1]}->{w[2]}", tt == w,
+                     f"'{core.norm(core.src(st), 100)}' is typed {shown}, not {w[1]}->{w[2]} (U unit-cell atom, R atom of the untrimmed surrounding cell, S supercell atom, S0 first image in the supercell): whenever the surrounding frame holds more lattice points than |det S| (non-diagonal matrices in the classic construction) the map names wrong or non-existent unit-cell representatives", line=st.lineno)
+
+
 def _r04i(rep):
     """The surrounding frame of the old-style construction is spanned by the supercell basis vectors."""
     from engine import symnp
@@ -338,6 +528,7 @@ def run(rep: core.Report):
     shared_trunc.run(rep, "R04f")
     _r04g(rep)
     _r04i(rep)
+    _r04j(rep)
     from rules import shared_bcast
 
     shared_bcast.run(rep, "R04h", sorted(core.python_files("phonopy/structure")))
@@ -347,6 +538,9 @@ def selftest():
     V = []
     b = lambda name, file, old, new, rule, expect="", **kw: V.append(dict(name=name, kind="break", file=file, old=old, new=new, rule=rule, expect=expect, **kw))
     n = lambda name, file, old, new, **kw: V.append(dict(name=name, kind="neutral", file=file, old=old, new=new, **kw))
+    b("supercell-to-unit map from the surrounding-cell index by the supercell block length", CELLS, "            self._s2u_map = np.array(u2sur_map[sur2s_map] * N, dtype=\"int64\")", "            self._s2u_map = np.array(sur2s_map // N * N, dtype=\"int64\")", "R04j", "_create_supercell")
+    n("supercell-to-unit map scaled after the conversion", CELLS, "            self._s2u_map = np.array(u2sur_map[sur2s_map] * N, dtype=\"int64\")", "            self._s2u_map = np.array(u2sur_map[sur2s_map], dtype=\"int64\") * N")
+    b("atom map of the surrounding cell indexed by itself", CELLS, "            self._s2u_map = np.array(u2sur_map[sur2s_map] * N, dtype=\"int64\")", "            self._s2u_map = np.array(sur2s_map[u2sur_map] * N, dtype=\"int64\")", "R04j", "_create_supercell")
     b("snf supercell lattice uses S instead of S^T", CELLS, "            cell=np.dot(mat.T, lattice),", "            cell=np.dot(mat, lattice),", "R04a", "np.dot(mat, lattice)")
     b("positions multiplied by inv(S) without transpose", CELLS, "            np.linalg.inv(mat).T,\n        )\n        symbols_multi", "            np.linalg.inv(mat),\n        )\n        symbols_multi", "R04a", "_get_simple_supercell")
     b("primitive mapping without transpose", CELLS, "frac_pos = np.dot(s_pos_orig, np.linalg.inv(self._primitive_matrix).T)", "frac_pos = np.dot(s_pos_orig, np.linalg.inv(self._primitive_matrix))", "R04a", "_map_atomic_indices")
